@@ -1396,9 +1396,46 @@ def _posToCell_case(args):
     return 1, None, None
 
 
+def _posToCell_reject(args):
+    """positions outside 0 .. cellToChildrenSize-1 are rejected with E_DOMAIN and nothing is stored, for every parent"""
+    c, p, pent = args
+    m = _WM
+    f = m.fn("childPosToCell")
+    qk, pk, ck, ok_ = f.arg_index("childPos"), f.arg_index("parent"), f.arg_index("childRes"), f.arg_index("child")
+    try:
+        al = assume_field(free_lanes(), RES_OFF, RES_W, p)
+        if pent:
+            for d in range(1, p + 1):
+                al[15 - d] = [0]
+        count = _pent_children(c - p) if pent else 7 ** (c - p)
+        for pos in (-1, count, count + 1, (1 << 63) - 1, -(1 << 63)):
+            ev = lanes.Evaluator(m, al)
+            ev.models["isPentagon"] = _ispent_model(pent)
+            a = [None] * len(f.args)
+            a[qk], a[pk], a[ck], a[ok_] = pos & ((1 << 64) - 1), LV.input(), c, lanes.argptr(ok_)
+            for pth in ev.run("childPosToCell", a):
+                wit = sum(pth.allowed[j][0] << (3 * j) for j in range(NL))
+                if pth.ret != 2 or pth.stored(ok_) is not None:
+                    return 1, ("position %d of %d children: returns %s%s; documented E_DOMAIN (2) and no result" % (pos, count, pth.ret, "" if pth.stored(ok_) is None else " and stores a cell"), wit, (c, p, pent)), None
+    except Shape as e:
+        return 0, None, "childRes=%d parentRes=%d: %s" % (c, p, e)
+    return 1, None, None
+
+
 def chk_postocell(ctx, m, cfg):
     fname = "childPosToCell"
     f = m.fn(fname)
+    rej = _pmap(_posToCell_reject, [(c, p, pent) for c in range(16) for p in range(c + 1) for pent in (False, True)], m)
+    for r in rej:
+        if r[2]:
+            raise Shape(r[2])
+    badr = next((r[1] for r in rej if r[1]), None)
+    if badr:
+        msg, wit, (c, p, pent) = badr
+        ctx.violation(RULE, "childPosToCell:range", "childPosToCell(parent %s, childRes %d): %s" % (fmt_digits(wit), c, msg), f.where(), {"function": fname, "config": cfg})
+    else:
+        ctx.ok(RULE, {"function": fname, "clause": "positions outside the range", "cases": sum(r[0] for r in rej), "config": cfg},
+               "positions -1, count, count+1, INT64_MAX, INT64_MIN are rejected with E_DOMAIN without a store for every parent, for all 136 resolution pairs x {hexagon, pentagon}")
     text = ("given the RANK of a valid child (as decided for cellToChildPos) and its parent, childPosToCell succeeds and stores exactly that child: parent bits kept, resolution "
             "= childRes, digits p+1..c = the child's digits; so the two functions are mutually inverse on the children and their positions")
     results = _pmap(_posToCell_case, list(_childpos_cases()), m)
